@@ -207,7 +207,7 @@ INFO["C01"]["rule"] += " Plus: 5-6 statement 'wide' programs under every schedul
 # families added after seed waves 4-6 (see DESIGN.md section 10)
 _MORE = {
     "C01": "twin constants (1/True/1.0, 0/False/0.0, 2/2.0) as argument, keyword, flag, operand, return member; non-commutative operands with the constant on either side; every program with a defaulted parameter: executor run with explicit arguments, then a defaulted call on the same object; int keys and negative positions in index paths; two awaits of one AsyncDAG object in flight.",
-    "C02": "parallel edges (one consumer uses a producer twice through different index paths / as argument and flag); tuple keys; defaulted DAG parameters incl. executor-then-call; ghost completions (a task over while its node runs) and stray completions are part of the controller.",
+    "C02": "parallel edges (one consumer uses a producer twice through different index paths / as argument and flag); tuple keys; defaulted DAG parameters incl. executor-then-call; ghost completions (a task over while its node runs) and stray completions are part of the controller; setup(root_nodes=[r]) on single-root DAGs made of setup nodes.",
     "C03": "selections by a tag equal to another node's id; pairs of targets / exclusions / roots named descendant-first; declaration-order metamorphic oracle for the debug nodes a sub-graph run pulls in; nested programs with setup nodes judged per DAG object.",
     "C04": "configuration variants (library imported under other defaults); call-form declarations xn(f, **options); AsyncDAG awaited next to a sibling task; starvation monitor on both kinds of wait with a small default executor.",
     "C05": "configuration variants; call-form declarations; constant-True / constant-False flags x exactly one (other) sequential node; composed-DAG family.",
